@@ -112,6 +112,10 @@ def object_level(j, version, key):
     elif version == "2.0" and j.get("type") != "bundle":
         out.append(("spec_version-added", dict(j, spec_version="2.0")))
     out.append(("type-other", dict(j, type="tool" if j.get("type") != "tool" else "identity")))
+    if version == "2.1" and "extensions" in model.spec(version).classes[key]["properties"]:
+        # only a TOPLEVEL-property-extension may add top-level properties; every other kind of unregistered extension next to an unknown property changes nothing
+        for et in ("property-extension", "new-sdo", "new-sco", "new-sro", "toplevel-property-extensio", "x-toplevel-property-extension"):
+            out.append(("unknown-property-next-to-unregistered-%s" % et, dict(j, foo_unknown=1, extensions=dict(j.get("extensions") or {}, **{"extension-definition--" + V4: {"extension_type": et}}))))
     if version == "2.0" and "extensions" not in model.spec(version).classes[key]["properties"]:
         # STIX 2.0 has no extension mechanism: an 'extensions' member on an SDO/SRO is just an unknown property, whatever it claims
         EXT = "extension-definition--" + V4
@@ -281,6 +285,44 @@ def prebuilt_subobjects(part, base, version, tkey, case):
                 check_result(part, obj, version, c, "prebuilt-subobject/" + ("extension" if "extensions" in tpath else "embedded"))
 
 
+def prebuilt_special(part, base, version, tkey, case):
+    """ready-made library objects where the parent decides what they must be: the definition of a marking-definition (object of another marking class), and the members of a
+    2.0 observed-data container (instances whose local references no longer resolve in the new container)"""
+    import stix2
+    mod = stix2.v20 if version == "2.0" else stix2.v21
+    if base.get("type") == "marking-definition":
+        defs = {"tlp-object": lambda: mod.TLPMarking(tlp="red"), "statement-object": lambda: mod.StatementMarking(statement="s"), "tlp-red-singleton-definition": lambda: mod.TLP_RED.definition}
+        for dt_ in ("tlp", "statement"):
+            for dl, make in defs.items():
+                part.evaluations += 1
+                part.transitions += 1
+                j = dict({k: v for k, v in base.items() if k not in ("definition", "definition_type", "name")}, definition_type=dt_, definition=make())
+                c = dict(case, corruption="definition=%s,definition_type=%s" % (dl, dt_), form="constructor(prebuilt definition)")
+                try:
+                    obj = mod.MarkingDefinition(**j)
+                except Exception:
+                    part.outcome("refused")
+                    continue
+                check_result(part, obj, version, c, "prebuilt-definition/%s-as-%s" % (dl.split("-")[0], dt_))
+    if version == "2.0" and base.get("type") == "observed-data" and isinstance(base.get("objects"), dict) and len(base["objects"]) > 1:
+        try:
+            od = stix2.parse(copy.deepcopy(base), allow_custom=False)
+        except Exception:
+            return
+        for drop in list(base["objects"]):
+            members = {k: v for k, v in od.objects.items() if k != drop}        # library INSTANCES, one of their siblings gone
+            for form in ("constructor", "new_version"):
+                part.evaluations += 1
+                part.transitions += 1
+                c = dict(case, corruption="member-instances-without-%s" % drop, form="%s(prebuilt container members)" % form)
+                try:
+                    obj = od.new_version(objects=members) if form == "new_version" else mod.ObservedData(**dict({k: v for k, v in base.items() if k != "objects"}, objects=members))
+                except Exception:
+                    part.outcome("refused")
+                    continue
+                check_result(part, obj, version, c, "prebuilt-container-members/sibling-removed")
+
+
 def datetime_objects():
     """timestamp values as objects: STIXdatetime with every (precision, constraint) - as read from some other object's property - and plain datetimes, carrying 123456 microseconds"""
     import datetime as dt
@@ -413,6 +455,8 @@ def run_case(case, part):
                 attempt(part, j, version, c, feature(version, kind, clabel, pname), fm if not path[:1] == ("type",) else ["parse(dict)", "parse(text)"])
         if only is None and extra is None and not loc:
             prebuilt_subobjects(part, base, version, tkey, case)
+        if only is None and extra is None:
+            prebuilt_special(part, base, version, tkey, case)
         if only is None and extra is None:
             inner = harness.locate(base, loc)
             for clabel, inst in object_level(inner, version, key):
